@@ -189,6 +189,9 @@ def gen_time_history(rng):
             ops.append((rng.choice(["ticks", "ticks!"]), i, rng.choice([None, 10, 5, 10, 3])))
         elif c < 0.8:
             ops.append(("nice", i, rng.choice([None, 10, 5])))
+        elif c < 0.84:
+            # the caller reads the domain and edits the list it got back (its own list: a time scale builds it afresh for every request)
+            ops.append(("domain-read!", i, rng.choice(["reverse", "clear", "append", "pad"])))
         elif c < 0.9:
             # "range!": the caller changes the list it passed before in place and passes the same object again
             ops.append((rng.choice(["range", "range!"]), i, rng.choice([0, -20, 7.5]), rng.choice([100, 360, 1000, 640])))
@@ -216,6 +219,17 @@ def run_time_history(ops, m):
             s.range(lst)
         elif o[0] == "nice":
             s.nice(o[2]) if o[2] is not None else s.nice()
+        elif o[0] == "domain-read!":
+            got = s.domain()
+            if isinstance(got, list):
+                if o[2] == "reverse":
+                    got.reverse()
+                elif o[2] == "clear":
+                    del got[:]
+                elif o[2] == "append":
+                    got.append(to_dt(0))
+                elif len(got) == 2:
+                    got[0], got[1] = got[0] - timedelta(days=400), got[1] + timedelta(days=400)
         elif o[0] == "copy":
             objs.append(s.copy())
         elif o[0] in ("ticks", "ticks!"):
